@@ -107,8 +107,8 @@ def pendingOK (ms : C18St) (A : List Nat) (t : Nat) : Bool :=
        | _ => false)
   | none => false
 
-/-- the monitor, with the enqueue-order clause switchable (`fifo = false` is only used to state the
-partial simulation theorem `C18_obs_partial`; the registered monitor is `monC18 = monC18g true`) -/
+/-- the monitor, with the enqueue-order clause switchable (`fifo = false` is only used as the first
+layer of the simulation proof, `C18_obs_core`; the registered monitor is `monC18 = monC18g true`) -/
 def monC18g (fifo : Bool) : ObsMonitor Obs C18St where
   init := {}
   step := fun ms o =>
